@@ -170,6 +170,11 @@ func c09(e *Env) {
 		case 3:
 			text = "DELETE FROM " + from + " WHERE key = '" + tok + "'"
 		}
+		// white space in front of the statement (editors, here-documents, Windows line ends) means nothing
+		if c.Choose("c09lead?", 4) == 3 {
+			text = []string{" ", "\t", "\n", "\r\n", "  \r\n\t ", "\n\n"}[c.Choose("c09lead", 6)] + text
+			e.Res.Stats["probe.c09.leading_white_space"]++
+		}
 		// sometimes a text that was sent before, byte for byte, by whichever client and under
 		// whatever keyspace is current now: who answers depends on the current keyspace, not on
 		// what was decided for the same text earlier
